@@ -10,7 +10,6 @@ use libtw2_packer::Warning;
 use libtw2_packer::at_least;
 use libtw2_packer::in_range;
 use libtw2_packer::positive;
-use libtw2_packer::to_bool;
 use libtw2_warn::Warn;
 use libtw2_warn::wrap;
 use std::fmt;
@@ -372,9 +371,9 @@ pub struct PlayerInput {
     pub direction: i32,
     pub target_x: i32,
     pub target_y: i32,
-    pub jump: bool,
+    pub jump: i32,
     pub fire: i32,
-    pub hook: bool,
+    pub hook: i32,
     pub player_flags: i32,
     pub wanted_weapon: i32,
     pub next_weapon: i32,
@@ -495,13 +494,13 @@ pub struct SpectatorInfo {
 #[repr(C)]
 #[derive(Clone, Copy)]
 pub struct DeClientInfo {
-    pub local: bool,
+    pub local: i32,
     pub team: enums::Team,
     pub name: [i32; 4],
     pub clan: [i32; 3],
     pub country: i32,
     pub skin_part_names: [[i32; 6]; 6],
-    pub use_custom_colors: [bool; 6],
+    pub use_custom_colors: [i32; 6],
     pub skin_part_colors: [i32; 6],
 }
 
@@ -568,7 +567,7 @@ pub struct Damage {
     pub angle: i32,
     pub health_amount: i32,
     pub armor_amount: i32,
-    pub self_: bool,
+    pub self_: i32,
 }
 
 #[repr(C)]
@@ -612,9 +611,9 @@ impl PlayerInput {
             direction: in_range(_p.read_int()?, -1, 1)?,
             target_x: _p.read_int()?,
             target_y: _p.read_int()?,
-            jump: to_bool(_p.read_int()?)?,
+            jump: in_range(_p.read_int()?, 0, 1)?,
             fire: _p.read_int()?,
-            hook: to_bool(_p.read_int()?)?,
+            hook: in_range(_p.read_int()?, 0, 1)?,
             player_flags: _p.read_int()?,
             wanted_weapon: in_range(_p.read_int()?, 0, 6)?,
             next_weapon: _p.read_int()?,
@@ -623,6 +622,8 @@ impl PlayerInput {
     }
     pub fn encode(&self) -> &[i32] {
         assert!(-1 <= self.direction && self.direction <= 1);
+        assert!(0 <= self.jump && self.jump <= 1);
+        assert!(0 <= self.hook && self.hook <= 1);
         assert!(0 <= self.wanted_weapon && self.wanted_weapon <= 6);
         unsafe { slice::transmute(from_ref(self)) }
     }
@@ -633,9 +634,9 @@ impl PlayerInput {
             direction: in_range(_p.read_int(warn)?, -1, 1)?,
             target_x: _p.read_int(warn)?,
             target_y: _p.read_int(warn)?,
-            jump: to_bool(_p.read_int(warn)?)?,
+            jump: in_range(_p.read_int(warn)?, 0, 1)?,
             fire: _p.read_int(warn)?,
-            hook: to_bool(_p.read_int(warn)?)?,
+            hook: in_range(_p.read_int(warn)?, 0, 1)?,
             player_flags: _p.read_int(warn)?,
             wanted_weapon: in_range(_p.read_int(warn)?, 0, 6)?,
             next_weapon: _p.read_int(warn)?,
@@ -646,13 +647,15 @@ impl PlayerInput {
     }
     pub fn encode_msg<'d, 's>(&self, mut _p: Packer<'d, 's>) -> Result<&'d [u8], CapacityError> {
         assert!(-1 <= self.direction && self.direction <= 1);
+        assert!(0 <= self.jump && self.jump <= 1);
+        assert!(0 <= self.hook && self.hook <= 1);
         assert!(0 <= self.wanted_weapon && self.wanted_weapon <= 6);
         _p.write_int(self.direction)?;
         _p.write_int(self.target_x)?;
         _p.write_int(self.target_y)?;
-        _p.write_int(self.jump as i32)?;
+        _p.write_int(self.jump)?;
         _p.write_int(self.fire)?;
-        _p.write_int(self.hook as i32)?;
+        _p.write_int(self.hook)?;
         _p.write_int(self.player_flags)?;
         _p.write_int(self.wanted_weapon)?;
         _p.write_int(self.next_weapon)?;
@@ -1061,7 +1064,7 @@ impl DeClientInfo {
     }
     pub fn decode_inner(_p: &mut IntUnpacker) -> Result<DeClientInfo, Error> {
         Ok(DeClientInfo {
-            local: to_bool(_p.read_int()?)?,
+            local: in_range(_p.read_int()?, 0, 1)?,
             team: enums::Team::from_i32(_p.read_int()?)?,
             name: [
                 _p.read_int()?,
@@ -1126,12 +1129,12 @@ impl DeClientInfo {
             ],
             ],
             use_custom_colors: [
-                to_bool(_p.read_int()?)?,
-                to_bool(_p.read_int()?)?,
-                to_bool(_p.read_int()?)?,
-                to_bool(_p.read_int()?)?,
-                to_bool(_p.read_int()?)?,
-                to_bool(_p.read_int()?)?,
+                in_range(_p.read_int()?, 0, 1)?,
+                in_range(_p.read_int()?, 0, 1)?,
+                in_range(_p.read_int()?, 0, 1)?,
+                in_range(_p.read_int()?, 0, 1)?,
+                in_range(_p.read_int()?, 0, 1)?,
+                in_range(_p.read_int()?, 0, 1)?,
             ],
             skin_part_colors: [
                 _p.read_int()?,
@@ -1144,6 +1147,10 @@ impl DeClientInfo {
         })
     }
     pub fn encode(&self) -> &[i32] {
+        assert!(0 <= self.local && self.local <= 1);
+        for &e in &self.use_custom_colors {
+            assert!(0 <= e && e <= 1);
+        }
         unsafe { slice::transmute(from_ref(self)) }
     }
 }
@@ -1414,7 +1421,7 @@ impl Damage {
             angle: _p.read_int()?,
             health_amount: in_range(_p.read_int()?, 0, 9)?,
             armor_amount: in_range(_p.read_int()?, 0, 9)?,
-            self_: to_bool(_p.read_int()?)?,
+            self_: in_range(_p.read_int()?, 0, 1)?,
         })
     }
     pub fn encode(&self) -> &[i32] {
@@ -1422,6 +1429,7 @@ impl Damage {
         assert!(0 <= self.client_id && self.client_id <= 63);
         assert!(0 <= self.health_amount && self.health_amount <= 9);
         assert!(0 <= self.armor_amount && self.armor_amount <= 9);
+        assert!(0 <= self.self_ && self.self_ <= 1);
         unsafe { slice::transmute(from_ref(self)) }
     }
 }
